@@ -1575,6 +1575,179 @@ func runEvict(rng *rand.Rand) (viols []viol, st runStats) {
 	return
 }
 
+// ============================================================== switching the source of an inheriting construct
+
+// swGate parks the writer of a source inside an earlier subscriber of that source: its update is in flight (value
+// stored, callback list collected, the inheriting callback not yet invoked).
+type swGate struct {
+	armed   atomic.Bool
+	entered chan struct{}
+	release chan struct{}
+}
+
+func (g *swGate) pass() {
+	if g != nil && g.armed.CompareAndSwap(true, false) {
+		close(g.entered)
+		<-g.release
+	}
+}
+
+// runSwitch: a Variable / DerivedSet that inherits from source A is switched to source B (unsubscribe from A, then
+// InheritFrom(B)) while an update of the OLD source is in flight (held in a gate, or free-running writers). At
+// quiescence the target must equal its CURRENT source.
+func runSwitch(rng *rand.Rand) (viols []viol, st runStats) {
+	isSet := rng.Intn(3) == 0
+	st.shape = fmt.Sprintf("switch/set%v", isSet)
+	var gates [2]atomic.Pointer[swGate]
+	nextVal := 0
+	fresh := func() int { nextVal++; return nextVal }
+	// the two sources, the target, and uniform accessors
+	var write [2]func(v int) // a write that changes the source (v == 0: the zero value / empty set)
+	var inherit [2]func() func()
+	var srcVal [2]func() int
+	var tgtVal func() int
+	if isSet {
+		var src [2]reactive.Set[int]
+		D := reactive.NewDerivedSet[int]()
+		for i := range src {
+			src[i] = reactive.NewSet[int]()
+			src[i].OnUpdate(func(ds.SetMutations[int]) { gates[i].Load().pass() })
+			write[i] = func(v int) {
+				if v == 0 {
+					src[i].Replace(ds.NewSet[int]())
+					return
+				}
+				e := 1 + v%5
+				src[i].Compute(func(cur ds.ReadableSet[int]) ds.SetMutations[int] {
+					if cur.Has(e) {
+						return ds.NewSetMutations[int]().WithDeletedElements(ds.NewSet(e))
+					}
+					return ds.NewSetMutations[int](e)
+				})
+			}
+			inherit[i] = func() func() { return D.InheritFrom(src[i]) }
+			srcVal[i] = func() int { return int(maskOf(src[i])) }
+		}
+		tgtVal = func() int { return int(maskOf(D)) }
+	} else {
+		var src [2]reactive.Variable[int]
+		t := reactive.NewVariable[int]()
+		for i := range src {
+			src[i] = reactive.NewVariable[int]()
+			src[i].OnUpdate(func(_, _ int) { gates[i].Load().pass() })
+			write[i] = func(v int) {
+				if v != 0 {
+					v = v*2 + i // values of the two sources never coincide
+				}
+				src[i].Set(v)
+			}
+			inherit[i] = func() func() { return t.InheritFrom(src[i]) }
+			srcVal[i] = src[i].Get
+		}
+		tgtVal = t.Get
+	}
+	for i := range write {
+		if rng.Intn(2) == 0 {
+			write[i](fresh())
+		}
+	}
+	cur := rng.Intn(2)
+	unsub := inherit[cur]()
+	check := func(r int, how string) bool {
+		if got, want := tgtVal(), srcVal[cur](); got != want {
+			kind := "inheritfrom"
+			if isSet {
+				kind = "derivedset"
+			}
+			viols = []viol{{kind + "/target-differs-from-current-source-after-switch", fmt.Sprintf("the target was switched from source %d to source %d while an update of the old source was in flight (%s); all writers have returned, the target holds %d but its current source holds %d (old source: %d)", 1-cur, cur, how, got, want, srcVal[1-cur]()), map[string]any{"round": r, "mode": how, "target": got, "current_source": want, "old_source": srcVal[1-cur](), "set": isSet}}}
+			return false
+		}
+		return true
+	}
+	if !check(-1, "initial attach") {
+		return
+	}
+	overl := 0
+	for r, rounds := 0, 4+rng.Intn(10); r < rounds; r++ {
+		old, nw := cur, 1-cur
+		if rng.Intn(2) == 0 {
+			// held: the old source's update is parked inside an earlier subscriber while the switch happens
+			g := &swGate{entered: make(chan struct{}), release: make(chan struct{})}
+			g.armed.Store(true)
+			gates[old].Store(g)
+			v := fresh()
+			if srcVal[old]() != 0 && rng.Intn(3) == 0 {
+				v = 0
+			}
+			grp := newGroup()
+			grp.spawn("writer of the old source", func() { write[old](v) })
+			close(grp.start)
+			<-g.entered
+			unsub()
+			unsub = inherit[nw]()
+			cur = nw
+			if rng.Intn(2) == 0 {
+				write[nw](fresh())
+			}
+			close(g.release)
+			grp.wg.Wait()
+			gates[old].Store(nil)
+			st.add("switches_with_old_source_update_in_flight", 1)
+			st.structural++
+			st.ops++
+			if len(grp.pn.rec) > 0 {
+				return nil, st
+			}
+			if !check(r, "held in an earlier subscriber of the old source") {
+				return
+			}
+			continue
+		}
+		// free-running writers on both sources while the switcher switches 1-3 times
+		grp := newGroup()
+		for i := 0; i < 2; i++ {
+			plan := make([][2]int, 1+rng.Intn(4))
+			for k := range plan {
+				plan[k] = [2]int{fresh(), rng.Intn(3)}
+				if rng.Intn(4) == 0 {
+					plan[k][0] = 0
+				}
+			}
+			st.ops += len(plan)
+			grp.spawn(fmt.Sprintf("writer of source %d", i), func() {
+				for _, p := range plan {
+					yield(p[1])
+					write[i](p[0])
+					progress.Add(1)
+				}
+			})
+		}
+		nSw, y := 1+rng.Intn(3), rng.Intn(6)
+		st.structural += nSw
+		st.add("switches_racing_free_writers", nSw)
+		grp.spawn("switcher", func() {
+			for k := 0; k < nSw; k++ {
+				yield(y)
+				unsub()
+				cur = 1 - cur
+				unsub = inherit[cur]()
+				progress.Add(1)
+			}
+		})
+		grp.run()
+		overl += overlapping(grp.spans)
+		if len(grp.pn.rec) > 0 {
+			return nil, st
+		}
+		if !check(r, "free-running writers") {
+			return
+		}
+		_ = old
+	}
+	st.nontrivial = true
+	return
+}
+
 // ============================================================== driver
 
 func runOne(scenario string, rng *rand.Rand) ([]viol, runStats) {
@@ -1596,6 +1769,8 @@ func runOne(scenario string, rng *rand.Rand) ([]viol, runStats) {
 		return runWG(rng)
 	case "evict":
 		return runEvict(rng)
+	case "switch":
+		return runSwitch(rng)
 	}
 	panic("unknown scenario " + scenario)
 }
@@ -1657,7 +1832,7 @@ func child(c *vf.Ctx) {
 var scenarios = []struct {
 	name  string
 	share int
-}{{"dv", 14}, {"dset", 14}, {"subtract", 8}, {"counter", 10}, {"ss-seq", 10}, {"ss-owner", 10}, {"ss-addw", 8}, {"ss-dl", 8}, {"wg", 9}, {"evict", 9}}
+}{{"dv", 12}, {"dset", 12}, {"subtract", 8}, {"counter", 9}, {"ss-seq", 9}, {"ss-owner", 9}, {"ss-addw", 8}, {"ss-dl", 8}, {"wg", 9}, {"evict", 9}, {"switch", 7}}
 
 func run(c *vf.Ctx) {
 	if c.Replay != "" {
@@ -1723,6 +1898,8 @@ func run(c *vf.Ctx) {
 	// scales with the parallelism that is actually available and never drops below a floor that still proves the
 	// window was entered through pre-emption / Gosched jitter
 	c.Require("wg_multi_element_adds_raced_by_done", total/100)
+	c.Require("switches_with_old_source_update_in_flight", total/20)
+	c.Require("switches_racing_free_writers", total/20)
 	c.Require("attaches_inside_zero_write_callback", total/100)
 	c.Require("attaches_racing_zero_write", max(total/2000, total/100*par/4))
 }
